@@ -44,7 +44,10 @@ def accept_check(text, scratch):
     except subprocess.TimeoutExpired:
         return 'hang: the assembler did not finish within 60 s'
     if r.returncode != 0:
-        return 'crash: ' + xcase.crash_signature(r.stderr.decode(errors='replace')) + '\n' + r.stderr.decode(errors='replace')[-1500:]
+        err = r.stderr.decode(errors='replace')
+        if 'stack-overflow' in err and not plain_crashes(open(sp, 'rb').read()):
+            return ''    # instrumentation artefact: the production executable handles this input with the default stack
+        return 'crash: ' + xcase.crash_signature(err) + '\n' + err[-1500:]
     o = json.loads(r.stdout.decode())
     if not o['ok']:
         if o['err_type'] not in ('hexutil::Error', 'std::exception'):
